@@ -19,6 +19,9 @@ import (
 	"github.com/evanoberholster/imagemeta/exif2"
 	"github.com/evanoberholster/imagemeta/imagehash"
 	"github.com/evanoberholster/imagemeta/isobmff"
+	"github.com/evanoberholster/imagemeta/meta"
+	"github.com/evanoberholster/imagemeta/preview"
+	"github.com/rs/zerolog"
 	"vh/internal/drv"
 )
 
@@ -685,7 +688,11 @@ func bufioOpsCorrespondence(c *Ctx) error {
 		return hexs(b)
 	}
 	for i := 0; i < c.N(800, 20000); i++ {
+		big := i%10 == 9 // long streams: the preview loop's 2048-byte chunk matters
 		data := make([]byte, c.Rng.Intn(150))
+		if big {
+			data = make([]byte, 2000+c.Rng.Intn(4000))
+		}
 		c.Rng.Read(data)
 		var sched []int
 		var ss []string
@@ -693,6 +700,9 @@ func bufioOpsCorrespondence(c *Ctx) error {
 			k := 1 + c.Rng.Intn(9)
 			if c.Rng.Intn(6) == 0 {
 				k = 1 + c.Rng.Intn(60)
+			}
+			if big {
+				k = 200 + c.Rng.Intn(3000)
 			}
 			sched = append(sched, k)
 			ss = append(ss, fmt.Sprint(k))
@@ -706,6 +716,9 @@ func bufioOpsCorrespondence(c *Ctx) error {
 			full = strings.Join(rep, ",")
 		}
 		size := 16 + c.Rng.Intn(40)
+		if big {
+			size = []int{64, 1024, 4096}[c.Rng.Intn(3)]
+		}
 		nb := 1 + c.Rng.Intn(3)
 		remains := make([]int, nb)
 		for j := range remains {
@@ -718,7 +731,7 @@ func bufioOpsCorrespondence(c *Ctx) error {
 		box, remainOf := isobmff.VerifBoxChain(br, remains)
 		var ops, out []string
 		for j := 0; j < 1+c.Rng.Intn(7); j++ {
-			switch c.Rng.Intn(6) {
+			switch c.Rng.Intn(7) {
 			case 0:
 				n := c.Rng.Intn(size + 1)
 				ops = append(ops, fmt.Sprintf("P%d", n))
@@ -764,6 +777,16 @@ func bufioOpsCorrespondence(c *Ctx) error {
 					out = append(out, hexOr(p[:k])+":"+lims(remainOf()))
 				}
 				c.Stat("op.box-read")
+			case 5:
+				n := c.Rng.Intn(70)
+				if big {
+					n = []int{2047, 2048, 2049, 4096, 4100, 5000}[c.Rng.Intn(6)]
+				}
+				ops = append(ops, fmt.Sprintf("V%d", n))
+				pr := preview.NewPreviewReader(zerolog.Nop())
+				_ = pr.RenderPreview(box, meta.PreviewHeader{Size: uint32(n)})
+				out = append(out, hexOr(pr.PreviewImage)+":"+lims(remainOf()))
+				c.Stat("op.render-preview")
 			default:
 				n := c.Rng.Intn(70)
 				ops = append(ops, fmt.Sprintf("G%d", n))
